@@ -22,12 +22,13 @@
 (* Sem(x, row, grid) is the SET of truth values the property allows for    *)
 (* the row (a singleton when determined):                                  *)
 (*   tag / not tag   presence of the resolved path                         *)
-(*   comparisons     FALSE when the path does not resolve; FALSE between   *)
-(*                   different kinds except `!=' (unconstrained);          *)
-(*                   unconstrained between kindred kinds (bool/number/     *)
-(*                   quantity, str/uri, date/date-time), which Python      *)
-(*                   compares and Haystack does not; ordering inside an    *)
-(*                   unordered kind (bool, uri, ref) unconstrained          *)
+(*   comparisons     FALSE when the path does not resolve; between values  *)
+(*                   of different Haystack kinds (Bool / Number / Number   *)
+(*                   with unit / Str / Uri / Date / DateTime ...) `==' is  *)
+(*                   FALSE, `!=' TRUE, the orderings FALSE; unconstrained  *)
+(*                   between the two literal kinds of one Haystack kind    *)
+(*                   (5 / INF, true / false) and for the ordering inside   *)
+(*                   an unordered kind (bool, uri, ref)                    *)
 (*   a->b            through the row whose id is the name of the Ref a     *)
 (*   and / or        left folds over all operands                          *)
 (***************************************************************************)
@@ -42,9 +43,10 @@ KindNames == <<"num", "str", "boolT", "boolF", "uri", "ref", "date", "time", "dt
 Kinds     == {KindNames[i] : i \in 1..Len(KindNames)}
 KIdx == [num |-> 1, str |-> 2, boolT |-> 3, boolF |-> 4, uri |-> 5, ref |-> 6, date |-> 7,
          time |-> 8, dt |-> 9, qty |-> 10, inf |-> 11]
-\* kinds that Python compares with each other although Haystack keeps them apart
-Fam == [num |-> "numeric", qty |-> "numeric", boolT |-> "numeric", boolF |-> "numeric",
-        inf |-> "numeric", str |-> "text", uri |-> "text", date |-> "day", dt |-> "day",
+\* the Haystack kind behind each literal kind: two literal kinds of one Haystack kind (5 and INF, true and false) are
+\* "kindred" -- their values are comparable, but this model has no common scale for them
+Fam == [num |-> "number", inf |-> "number", qty |-> "quantity", boolT |-> "bool", boolF |-> "bool",
+        str |-> "str", uri |-> "uri", date |-> "date", dt |-> "dateTime",
         time |-> "time", ref |-> "ref"]
 Ordered == {"num", "str", "date", "time", "dt", "qty", "inf"}
 
@@ -246,7 +248,7 @@ Class(v, k) ==
 CmpSem(o, k, v) ==
     LET c == Class(v, k)
     IN IF c = "absent" THEN {FALSE}
-       ELSE IF c = "other" THEN (IF o = "!=" THEN BOOLEAN ELSE {FALSE})
+       ELSE IF c = "other" THEN {o = "!="}         \* another kind (or another unit): unequal, and not ordered
        ELSE IF c = "kindred" THEN BOOLEAN
        ELSE IF o = "==" THEN {c = "equal"}
        ELSE IF o = "!=" THEN {c # "equal"}
